@@ -442,6 +442,10 @@ impl<'a> Interp<'a> {
         if depth > 0 {
             self.out.classes.insert(format!("applied-nested:{}", sub.name()));
         }
+        if depth >= 3 {
+            // a lookup applied by the third of three nested context lookups
+            self.out.classes.insert("applied-under-three-nested-contexts".to_string());
+        }
         if lk.ext {
             self.out.classes.insert("applied:extension".to_string());
             self.out.classes.insert(format!("applied:extension:{}", sub.name()));
